@@ -19,33 +19,33 @@ import (
 
 // Scenario is a deterministic function of (Seed, Focus) except for goroutine timing.
 type Scenario struct {
-	Seed       uint64
-	Focus      string
-	Brokers    int
-	Partitions int32
-	RetryMax   int
-	FlushMsgs  int
-	FlushBytes int
-	FlushFreq  int // ms
-	MaxMsgs    int
-	MaxMsgByte int
-	Idempotent bool
-	Acks       sarama.RequiredAcks
-	Version    sarama.KafkaVersion
-	ChanBuf    int
-	Codec      sarama.CompressionCodec
-	Icepts     int
-	PanicIcept int // index of an interceptor that panics (-1 none)
-	Sync       bool
-	LongPause  bool
-	GrowBy     int // > 0: the last interceptor also pads the value by this many bytes (a message may outgrow MaxMessageBytes)
-	Msgs       []Msg
-	Faults     map[int]sarama.VerifSimFault // by global produce request number
-	MetaFailAt map[int]bool
-	Bursts     []int // burst sizes
-	PauseMs    []int
-	CloseAfter int // submit only this many messages, then close while they may be in flight (-1: wait for all outcomes first)
-	DupAsError bool
+	Seed              uint64
+	Focus             string
+	Brokers           int
+	Partitions        int32
+	RetryMax          int
+	FlushMsgs         int
+	FlushBytes        int
+	FlushFreq         int // ms
+	MaxMsgs           int
+	MaxMsgByte        int
+	Idempotent        bool
+	Acks              sarama.RequiredAcks
+	Version           sarama.KafkaVersion
+	ChanBuf           int
+	Codec             sarama.CompressionCodec
+	Icepts            int
+	PanicIcept        int // index of an interceptor that panics (-1 none)
+	Sync              bool
+	LongPause         bool
+	GrowBy            int // > 0: the last interceptor also pads the value by this many bytes (a message may outgrow MaxMessageBytes)
+	Msgs              []Msg
+	Faults            map[int]sarama.VerifSimFault // by global produce request number
+	MetaFailAt        map[int]bool
+	Bursts            []int // burst sizes
+	PauseMs           []int
+	CloseAfter        int // submit only this many messages, then close while they may be in flight (-1: wait for all outcomes first)
+	DupAsError        bool
 	LeaderlessAtStart int32 // partition without a leader at start (-1 none)
 	LatencyMs         int   // every produce answer is delayed by this much (batches accumulate meanwhile)
 	CloseAtEvent      int   // >= 0: stop submitting and close as soon as this many hook events were recorded
@@ -392,6 +392,7 @@ type icept struct {
 	k     int
 	panic bool
 	grow  int
+	n     int // panics so far (the dispatcher calls interceptors from one goroutine)
 }
 
 // wireValueOf: the value a message carries after the interceptor chain ran (once) over it
@@ -411,7 +412,8 @@ func (i *icept) OnSend(m *sarama.ProducerMessage) {
 		}
 	}
 	if i.panic {
-		panic("interceptor panic (scripted)")
+		i.n++
+		scriptedPanic(i.n, "interceptor panic (scripted)")
 	}
 }
 
@@ -763,7 +765,9 @@ func idOfRecord(r sarama.VerifSimRecord) int {
 // Check evaluates every oracle; signatures are prefixed with the property id.
 func Check(res *Result) []Fail {
 	var fails []Fail
-	add := func(sig, format string, a ...interface{}) { fails = append(fails, Fail{sig, fmt.Sprintf(format, a...)}) }
+	add := func(sig, format string, a ...interface{}) {
+		fails = append(fails, Fail{sig, fmt.Sprintf(format, a...)})
+	}
 	sc := res.Sc
 	if res.NewErr != "" {
 		return fails
@@ -1364,4 +1368,24 @@ func BrokerLines(res *Result) (ops, answers []string) {
 		answers = append(answers, ans)
 	}
 	return
+}
+
+type panicCode int
+
+// scriptedPanic panics with values of different kinds in turn: a string, an error, a value of a private integer type,
+// a struct, and a genuine runtime error
+func scriptedPanic(n int, text string) {
+	switch n % 5 {
+	case 0:
+		panic(text)
+	case 1:
+		panic(fmt.Errorf("%s", text))
+	case 2:
+		panic(panicCode(42))
+	case 3:
+		panic(struct{ Why string }{text})
+	default:
+		var m map[string]int
+		m[text] = 1 // assignment to entry in nil map
+	}
 }
